@@ -33,7 +33,7 @@ fn check_path(t: &mut Tally, input: &str) {
             return;
         }
     };
-    if got.is_ok() != got2.is_ok() {
+    if got.is_ok() != got2.is_ok() || matches!((&got, &got2), (Ok(a), Ok(b)) if a != b) {
         t.violation(Violation::new("path", case(), json!("new == from_str"), json!(format!("{:?} vs {:?}", got, got2)), "from_str disagrees with new"));
         return;
     }
@@ -267,6 +267,24 @@ fn main() {
                 check_path(&mut t, &p);
             }
             check_depend(&mut t, "p-[0-9]*", &format!("c{}/p", c), &[0, 1, 0]);
+        }
+        run.merge(t);
+    }
+    // typed-looking texts as a path and as the path half of a dependency: quoted, URL-like, with
+    // blanks, with the syntax of the other formats
+    {
+        let mut t = Tally::new();
+        let mut vals: Vec<String> = mc_core::chars::TYPED_VALUES.iter().map(|v| v.to_string()).collect();
+        for q in ["\"c/p\"", "'c/p'", "\"../../c/p\"", "`c/p`", "(c/p)", "<c/p>", "[c/p]", "{c/p}", "c/p\"", "\"c/p", "c/\"p\"", "\"c\"/p", " c/p", "c/p ", "c /p", "c/p#x", "c/p?x", "c/p;x", "C/P", "c/p.", "c./p"] {
+            vals.push(q.to_string());
+        }
+        run.bound(format!("typed-looking paths: {} texts as a path and as the path half of a dependency", vals.len()));
+        for v in &vals {
+            t.states += 1;
+            check_path(&mut t, v);
+            if !v.contains(':') {
+                check_depend(&mut t, "p-[0-9]*", v, &[0, 1, 0]);
+            }
         }
         run.merge(t);
     }
